@@ -453,6 +453,10 @@ func (f *frame) contractCall(callee *ssa.Function, fc *FuncContract, args []SV, 
 		if cf := e.E.L.Funcs[cs.Callee]; cf != nil && cf.Signature.Results().Len() == 1 {
 			g := f.resultHavoc(base+"!ghost", cf.Signature.Results().At(0).Type())
 			nb[cs.As] = g
+		} else if cf != nil && cf.Signature.Results().Len() > 1 {
+			for i := 0; i < cf.Signature.Results().Len(); i++ {
+				nb[fmt.Sprintf("%s_%d", cs.As, i)] = f.resultHavoc(fmt.Sprintf("%s!ghost%d", base, i), cf.Signature.Results().At(i).Type())
+			}
 		} else if rt := e.E.libResultType(cs.Callee); rt != nil {
 			g := f.resultHavoc(base+"!ghost", rt)
 			nb[cs.As] = g
@@ -1061,6 +1065,39 @@ func (f *frame) logicalApp(callee *ssa.Function, fc *FuncContract, args []SV) SV
 	return SV{t: rt, term: fmt.Sprintf("(%s %s)", name, strings.Join(ts, " "))}
 }
 
+// ghostBind makes the ghost results of the function's "calls ... as name" clauses visible by
+// name (a multi-valued callee: name_0, name_1, ...), read from the given heap.
+func (f *frame) ghostBind(extra map[string]SV, heap Heap) { f.ghostBindFrom(extra, heap) }
+
+func (top *frame) ghostBindFrom(extra map[string]SV, heap Heap) {
+	e := top.enc
+	for k, cs := range top.contract.Calls {
+		if cs.As == "" {
+			continue
+		}
+		t, ok := top.ghostRetTypes[k]
+		if !ok || t == nil {
+			continue
+		}
+		if tup, isTup := t.(*types.Tuple); isTup {
+			for i := 0; i < tup.Len(); i++ {
+				ct := tup.At(i).Type()
+				term, ok2 := heap[fmt.Sprintf("%s!%d", ghostRetKey(k), i)]
+				if !ok2 {
+					term = e.zeroValue(ct)
+				}
+				extra[fmt.Sprintf("%s_%d", cs.As, i)] = SV{t: ct, term: term}
+			}
+			continue
+		}
+		term, ok2 := heap[ghostRetKey(k)]
+		if !ok2 {
+			term = e.zeroValue(t)
+		}
+		extra[cs.As] = SV{t: t, term: term}
+	}
+}
+
 func ghostCallKey(k int) string { return fmt.Sprintf("ghost!call!%d", k) }
 
 // noteCall updates the ghost flags of the function's "calls" clauses at a call site.
@@ -1069,7 +1106,28 @@ func ghostRetKey(k int) string { return fmt.Sprintf("ghost!ret!%d", k) }
 // noteCallResult records the result of a matching call for "calls ... as name".
 func (f *frame) noteCallResult(matches map[int]string, res SV) {
 	e := f.enc
-	if res.tuple != nil || res.loc != nil || res.term == "" {
+	if res.tuple != nil {
+		for k, m := range matches {
+			if e.top.contract.Calls[k].As == "" {
+				continue
+			}
+			for i, comp := range res.tuple {
+				if comp.tuple != nil || comp.loc != nil || comp.term == "" {
+					continue
+				}
+				sortS := e.R.sortOf(comp.t)
+				gk := fmt.Sprintf("%s!%d", ghostRetKey(k), i)
+				e.R.heapDecl[gk] = sortS
+				cur, ok := f.curHeap[gk]
+				if !ok {
+					cur = e.zeroValue(comp.t)
+				}
+				f.curHeap[gk] = e.define(e.fresh(gk), sortS, ite(m, comp.term, cur))
+			}
+		}
+		return
+	}
+	if res.loc != nil || res.term == "" {
 		return
 	}
 	for k, m := range matches {
@@ -1389,18 +1447,7 @@ func (f *frame) atCallObligations(key string, args []SV, pos token.Pos) {
 			}
 		}
 		// ghost results of earlier calls ("calls F(..) as name") are visible by name
-		for gk, gcs := range top.contract.Calls {
-			if gcs.As == "" {
-				continue
-			}
-			if t, ok := top.ghostRetTypes[gk]; ok && t != nil {
-				term, ok2 := f.curHeap[ghostRetKey(gk)]
-				if !ok2 {
-					term = e.zeroValue(t)
-				}
-				extra[gcs.As] = SV{t: t, term: term}
-			}
-		}
+		top.ghostBindFrom(extra, f.curHeap)
 		c, ok := func() (c string, ok bool) {
 			// a clause naming a version of a local (x#upd) that is not computed yet at this
 			// call site says nothing about this site
